@@ -48,7 +48,7 @@ fn member_toml(env: &Env, name: &str, features: &[String], no_std: bool) -> Stri
     } else {
         deps.push_str(&format!("nutype = {{ path = \"{}/nutype\", features = [{}] }}\n", env.repo.display(), feats.join(", ")));
         if has("serde") {
-            deps.push_str("serde = { version = \"1\", features = [\"derive\"] }\n");
+            deps.push_str("serde = { version = \"1\", features = [\"derive\"] }\nserde_json = \"1\"\n");
         }
     }
     if has("regex") {
